@@ -57,6 +57,9 @@ def dump_resource(draw, name, tfp=None, max_fields=6, max_rows=8, types=None, so
     for nm in names:
         t = draw(st.sampled_from(types or DUMP_TYPES))
         f = {'name': nm, 'type': t}
+        if t == 'number' and draw(st.integers(0, 3)) == 0:
+            # the field arrives with lexical properties of wherever it was loaded from
+            f.update(draw(st.sampled_from([{'decimalChar': ',', 'groupChar': '.'}, {'groupChar': ','}, {'decimalChar': ','}])))
         if tfp and t in TEMPORAL_FORMATS and draw(st.booleans()):
             f[tfp] = draw(st.sampled_from(TEMPORAL_FORMATS[t]))
         flds.append(f)
